@@ -237,6 +237,10 @@ Loop:
 			return gerrors.ErrEngineShutdown
 		}
 
+		if r.Discard {
+			continue
+		}
+
 		if r.Owner == nil {
 			select {
 			case EngineGlobal.clusterChan <- r.RspBody:
